@@ -27,6 +27,10 @@ def gen_cases(seed, tier):
         for perm in perms:
             add("no", [("concat", ",".join(perm))])
         add("two", [("concat", rng.choice(["m,1", "1,m"]))])
+        # re-assembled, then the separate files are gone: every pack must be found by identity inside the file at hand,
+        # whatever location the manifest still records for it
+        add("no", [("concat", ",".join(rng.choice(perms))), ("remove", "0"), ("remove", "1")])
+        add("two", [("concat", rng.choice(["m,1", "1,m"])), ("remove", "1")])
         # one-file container embedded at the end of another file
         for tok in ["g:1:1:r", "g:64:2:r", "g:100:3:t", "g:8192:4:r"]:
             if tier == "quick" and rng.random() < 0.5:
